@@ -190,8 +190,8 @@ def run_case(c, d):
     if d['kind'] == 'exact':
         dd.update(grid=d['grid'], bins=d['bins'])
     x = gen.data(dd, c.rng(d, 'x'))
-    if np.asarray(x).dtype.kind == 'i':
-        x = x.astype(float)
+    if np.asarray(x).dtype.kind == 'i' and (d.get('amp10') or d.get('i', 0) % 2):
+        x = x.astype(float)                 # otherwise the samples stay int64
     if d.get('amp10'):
         x = x * 10.0 ** d['amp10']
     c.set_nontrivial(p >= 2)
